@@ -80,3 +80,10 @@ func emit(v interface{}) {
 	out.Write(b)
 	out.WriteByte('\n')
 }
+
+func flush() { out.Flush() }
+
+func flushAndExit(code int) {
+	out.Flush()
+	os.Exit(code)
+}
